@@ -76,6 +76,28 @@ def gen_simulation(rs, n_rows=(24, 60), force_nn_pair=None, absent_arm=False):
             "n_test": n_test, "n_train": n_train}
 
 
+def gen_big_simulation(rs, is_quick):
+    """one offline simulation large enough (> 1.25e8 test x train pairs, ~1 GB of distances) for the Simulator to split the
+    test rows into several chunks - the only regime in which its per-chunk bookkeeping does anything"""
+    n, nf = 102000, 2
+    arms = [0, 1, 2]
+    X = (rs.integers(0, 1024, (n, nf)) / 1024.0).tolist()
+    d = [int(v) for v in rs.integers(0, 3, n)]
+    r = [float(v) / 8.0 for v in rs.integers(0, 17, n)]
+    cfgs = [
+        {"arms": arms, "labels": "int", "lp": {"kind": "eg", "epsilon": 0.0},
+         "np": {"kind": "knn", "k": 25, "metric": "euclidean"}, "seed": 7, "n_jobs": 1, "backend": None},
+        {"arms": arms, "labels": "int", "lp": {"kind": "ucb", "alpha": 1.0},
+         "np": {"kind": "radius", "radius": 0.02, "metric": "euclidean", "probs": None}, "seed": 11, "n_jobs": 1, "backend": None},
+        {"arms": arms, "labels": "int", "lp": {"kind": "eg", "epsilon": 0.0}, "np": {"kind": "none"}, "seed": 3, "n_jobs": 1, "backend": None},
+    ]
+    test_size = 0.0125
+    n_test = n - int(n * (1 - test_size))
+    return {"cfgs": cfgs, "arms": arms, "d": d, "r": r, "X": X, "nf": nf, "big": True,
+            "params": {"test_size": test_size, "is_ordered": True, "batch_size": 0, "is_quick": bool(is_quick), "seed": 123456},
+            "n_test": n_test, "n_train": n - n_test}
+
+
 def run_simulator(sim_spec, bandits):
     from mabwiser.simulator import Simulator
     p = sim_spec["params"]
